@@ -89,10 +89,12 @@ let run_impl dir ~interval ~nf ~rf (ops : xop list) : child_end =
   in_child (fun () ->
     let setfile = Filename.concat dir "set.fileset" in
     let mtime = ref 1000.0 in
-    let write_setfile (lines : int list) ~absolute =
+    (* last_newline = false: the last line is not newline-terminated (a setfile written by printf '%s' or an editor) *)
+    let write_setfile ?(last_newline = true) (lines : int list) ~absolute =
       let oc = open_out setfile in
       ignore absolute;
-      List.iter (fun n -> output_string oc (line_of dir n ^ "\n")) lines;
+      let nl = List.length lines in
+      List.iteri (fun i n -> output_string oc (line_of dir n ^ (if i = nl - 1 && not last_newline then "" else "\n"))) lines;
       close_out oc;
       mtime := !mtime +. 1.0; Unix.utimes setfile !mtime !mtime in
     (try Unix.mkdir (Filename.concat dir "sub") 0o755 with _ -> ());
@@ -116,7 +118,7 @@ let run_impl dir ~interval ~nf ~rf (ops : xop list) : child_end =
       end; (List.sort compare !tables, List.rev !keys) in
     List.iteri (fun step op ->
       (match op with
-       | XSetFile l -> write_setfile l ~absolute:(step mod 2 = 0)
+       | XSetFile l -> write_setfile l ~absolute:(step mod 2 = 0) ~last_newline:(step mod 3 <> 1)
        | XCreate (n, t) ->
          let p = Filename.concat dir (name_of n) in
          (* a path is always re-created (new inode), never rewritten in place: a loaded table stays mapped, and table
@@ -316,6 +318,11 @@ let run ~tier ~seed ~only acc =
                 XAdvance (0, 1000); XReloadNow 1; XOpen (0, 0); XClose 2; XOpen (1, 0); XClose 3; XDestroy 1; XDestroy 0 ]);
     (* pinned snapshot: reload requested while an iterator is open *)
     (2, 0, 0, [ XCreate (1, 1); XCreate (2, 2); XSetFile [ 1 ]; XOpen (0, 0); XSetFile [ 1; 2 ]; XAdvance (5, 0); XReloadNow 0; XOpen (0, 0); XClose 0; XClose 1; XOpen (0, 0); XClose 2; XDestroy 0 ]);
+    (* the interval counts whole seconds of the clock (tv_sec difference), whatever the nanoseconds: last reload at
+       x.9 s, next operation 1.2 s (0.2 s) later, in the next-but-one (next) second - a reload is due *)
+    (1, 0, 0, [ XCreate (1, 1); XSetFile [ 1 ]; XAdvance (0, 900000000); XOpen (0, 0); XClose 0; XCreate (2, 2); XSetFile [ 1; 2 ]; XAdvance (1, 200000000); XOpen (0, 0); XClose 1; XDestroy 0 ]);
+    (0, 0, 0, [ XCreate (1, 1); XSetFile [ 1 ]; XAdvance (0, 900000000); XOpen (0, 0); XClose 0; XCreate (2, 2); XSetFile [ 1; 2 ]; XAdvance (0, 200000000); XOpen (0, 0); XClose 1; XDestroy 0 ]);
+    (2, 0, 0, [ XCreate (1, 1); XSetFile [ 1 ]; XAdvance (0, 999999999); XOpen (0, 0); XClose 0; XCreate (2, 2); XSetFile [ 1; 2 ]; XAdvance (2, 1); XOpen (0, 0); XClose 1; XAdvance (0, 999999998); XOpen (0, 0); XClose 2; XDestroy 0 ]);
     (* interval edges and NEVER *)
     (3, 0, 0, [ XCreate (1, 1); XSetFile [ 1 ]; XOpen (0, 0); XClose 0; XCreate (2, 2); XSetFile [ 1; 2 ]; XAdvance (3, 0); XOpen (0, 0); XClose 1; XAdvance (1, 0); XOpen (0, 0); XClose 2; XDestroy 0 ]);
     (never, 0, 0, [ XCreate (1, 1); XSetFile [ 1 ]; XOpen (0, 0); XClose 0; XCreate (2, 2); XSetFile [ 1; 2 ]; XAdvance (100, 0); XOpen (0, 0); XClose 1; XReloadNow 0; XOpen (0, 0); XClose 2; XDestroy 0 ]);
